@@ -27,13 +27,17 @@ CFGS = [{}, {}, {}, {"skipws": False}, {"ws": " "}, {"ws": " \t\n"}, {"autokwd":
 
 
 class CtxDict(dict):
-    """dict keyed by position that silently extends the key by the parser's whitespace context."""
+    """dict keyed by position that silently extends the key by the parser's whitespace context (what="ws") or by
+    the flag that tells whether the parser is inside `_parse_comments` (what="comments")."""
 
-    def __init__(self, parser):
+    def __init__(self, parser, what="ws"):
         super().__init__()
         self.parser = parser
+        self.what = what
 
     def _k(self, pos):
+        if self.what == "comments":
+            return (pos, bool(getattr(self.parser, "in_parse_comments", False)))
         return (pos, self.parser.skipws, self.parser._ws)
 
     def __getitem__(self, pos):
@@ -165,6 +169,24 @@ def uniform_at(nodes, comments, skipws, ws):
     return True
 
 
+def comment_shared(nodes, top, comments):
+    """the comment model and the grammar proper share a memoized (= non-terminal) parsing expression"""
+    if comments is None:
+        return False
+
+    def reach(r):
+        seen, todo = set(), [r]
+        while todo:
+            i = todo.pop()
+            if i not in seen:
+                seen.add(i)
+                nd = nodes[i]
+                todo += list(nd.get("kids", [])) + ([nd["sep"]] if nd.get("sep") is not None else [])
+        return seen
+
+    return any(nodes[i]["k"] not in ("str", "re", "eof") for i in reach(top) & reach(comments))
+
+
 def restate_modifiers(g, cfg, rng):
     """turn the rule modifiers of grammar g into modifiers that RESTATE the configuration of the meta-model (the class
     of parser models for which memoization is proved transparent): every rule with a modifier, and one or two more
@@ -236,7 +258,7 @@ class Prop(Check):
                 # round D19: constant whitespace context (modifiers restating it), converse termination, verdicts
                 "Peg.C19_at", "Peg.C19_at_diverges", "Peg.C19_partial_at", "Peg.C19_converse_at",
                 "Peg.C19_partial_agree_at", "Peg.C19_partial_accept_at", "Peg.C19_posdet_at",
-                "Peg.C19_statement_false", "Tx.C19_load_at", "Peg.uniformAtB_sound",
+                "Peg.C19_statement_false", "Peg.C19_comment_false", "Tx.C19_load_at", "Peg.uniformAtB_sound",
                 "Peg.plain_sim_at", "Peg.memo_sim_at", "Peg.memo_rev", "Peg.memo_fin_plain", "Peg.bodyNode_ev",
                 "Peg.parseLim_ev"]
     DRIVER = "Drivers/Peg.lean"
@@ -292,6 +314,7 @@ class Prop(Check):
         res["same_model"] = (nodes == nodes1 and top == top1 and comments == comments1)
         res["skipws"], res["ws"] = bool(p0.skipws), p0.ws
         res["uniform_at"] = uniform_at(nodes, comments, res["skipws"], res["ws"])
+        res["comment_shared"] = comment_shared(nodes, top, comments)
         res["modifiers"] = sum(1 for nd in nodes if nd.get("ws") is not None or nd.get("skipws") is not None)
         for t in case["texts"]:
             d = {"text": t}
@@ -314,6 +337,13 @@ class Prop(Check):
                 for o_ in objs1:
                     o_._result_cache = CtxDict(q2)
                 d["parse1ctx"] = peg.real_parse(q2, t, objs1)
+                for o_ in objs1:
+                    o_._result_cache = {}
+                # ... second classifier: cache key extended by "inside _parse_comments"
+                q4 = mm1._parser_blueprint.clone()
+                for o_ in objs1:
+                    o_._result_cache = CtxDict(q4, "comments")
+                d["parse1cctx"] = with_timeout(lambda: peg.real_parse(q4, t, objs1))
                 for o_ in objs1:
                     o_._result_cache = {}
                 # ... and the disagreement must be reproducible from a clean cache state (not a stale-cache effect)
@@ -404,6 +434,15 @@ class Prop(Check):
                        and not _ne(d["first0"]["parse"], d["parse0"]) and not _ne(d["first1"]["parse"], d["parse1"])
                        for d in bad):
             return "C19-memo-key-ignores-ws-context"
+        # second finding: a parsing expression shared by the Comment rule and the grammar proper is memoized under a key
+        # that ignores whether the parser is inside _parse_comments
+        if bad and obs.get("comment_shared") and all(
+                d["parse0"] != d["parse1"] and d.get("parse1cctx") == d["parse0"]
+                and d.get("parse1fresh") == d["parse1"]
+                and not _ne(d["first0"]["load"], d["load0"]) and not _ne(d["first1"]["load"], d["load1"])
+                and not _ne(d["first0"]["parse"], d["parse0"]) and not _ne(d["first1"]["parse"], d["parse1"])
+                for d in bad):
+            return "C19-memo-key-ignores-comment-context"
         return None
 
     def nontrivial(self, case, obs):
